@@ -16,6 +16,8 @@ def classify(verdict):
         return 'printf-text'
     if isinstance(x, dict) and 'owed' in x:
         owed, got = x['owed'], x['got']
+        if got.get('e') == 'end' and got.get('how') == 'timeout':
+            return 'no-termination'
         if got.get('e') == 'end' and got.get('how') == 'fault':
             return 'fault-while-owing:' + str(owed.get('e'))
         return 'mismatch:%s/%s' % (owed.get('e'), got.get('e'))
